@@ -63,6 +63,43 @@ fn facts(text: &[u8]) -> Value {
     }
 }
 
+/// The content a package text states, as far as C09 speaks of it: price, stored aggregates and the orders with
+/// their fields.  Keys that are not fields of the format are dropped (the format tolerates unknown keys, and an
+/// unknown key alters no field), and the one optional field (`replenish_amount`) reads as null when absent - so
+/// that a fault which only renames the key of a null field is not counted as an alteration of the content.
+const ORDER_FIELDS: [&str; 15] = ["id", "price", "quantity", "visible_quantity", "hidden_quantity", "side", "timestamp", "time_in_force", "trail_amount",
+                                  "last_reference_price", "reference_price_offset", "reference_price_type", "replenish_threshold", "replenish_amount", "auto_replenish"];
+fn canon_order(o: &Value) -> Value {
+    match o.as_object() {
+        Some(m) if m.len() == 1 => {
+            let (variant, inner) = m.iter().next().unwrap();
+            match inner.as_object() {
+                Some(f) => {
+                    let mut out = serde_json::Map::new();
+                    for k in ORDER_FIELDS {
+                        if let Some(x) = f.get(k) {
+                            out.insert(k.to_string(), x.clone());
+                        }
+                    }
+                    if variant == "ReserveOrder" && !out.contains_key("replenish_amount") {
+                        out.insert("replenish_amount".into(), Value::Null);
+                    }
+                    json!({ variant.as_str(): Value::Object(out) })
+                }
+                None => o.clone(),
+            }
+        }
+        _ => o.clone(),
+    }
+}
+fn canon_snapshot(s: &Value) -> Value {
+    let orders = match s["orders"].as_array() {
+        Some(a) => Value::Array(a.iter().map(canon_order).collect()),
+        None => s["orders"].clone(),
+    };
+    json!({"price": s["price"], "visible_quantity": s["visible_quantity"], "hidden_quantity": s["hidden_quantity"], "order_count": s["order_count"], "orders": orders})
+}
+
 /// what the PROPERTY needs to know about a faulted text, read off the text with a generic JSON parser
 /// (no library type, no checksum recipe): is it JSON at all, the version it states, whether the stored
 /// checksum and the content (price, stored aggregates, the order list) are those of the original package
@@ -71,8 +108,8 @@ fn jfacts(text: &[u8], orig: &Value) -> Value {
         Ok(v) if v.is_object() => {
             let ver = v["version"].as_u64().map(|x| x.min(1 << 40) as i64).unwrap_or(-1);
             let sumsame = v["checksum"].is_string() && v["checksum"] == orig["checksum"];
-            let (a, b) = (&v["snapshot"], &orig["snapshot"]);
-            let contentsame = ["price", "visible_quantity", "hidden_quantity", "order_count", "orders"].iter().all(|k| a[*k] == b[*k]);
+            let (a, b) = (canon_snapshot(&v["snapshot"]), canon_snapshot(&orig["snapshot"]));
+            let contentsame = a == b;
             json!({"parsed": true, "ver": ver, "sumsame": sumsame, "contentsame": contentsame})
         }
         _ => json!({"parsed": false, "ver": -1, "sumsame": false, "contentsame": false}),
